@@ -18,7 +18,7 @@ FNAMES = ["fa", "fb", "-"]
 SIG_MUT = ["sname", "sfile", "ssetmh", "saddseq", "saddprot"]
 SIG_COPY = ["stomut", "stofrozen", "scopy", "spickle", "supdflat", "supdname", "sgatherinit"]
 SIG_RO = ["md5", "eq", "sim", "save", "pickle", "copies", "mhmut", "compare", "insertinto", "insertinto"]
-VIEW_RO_Q = ["search", "searchc", "prefetch", "best", "gather", "gatheri"]
+VIEW_RO_Q = ["search", "searchc", "prefetch", "best", "gather", "gatheri", "interleave"]
 VIEW_RO_0 = ["sigs", "locs", "manifest", "picklist"]
 SAVE_ANY = ["saveto0", "saveto1", "saveto2", "saveto3"]
 SAVE_BY_KIND = {"vsbt": ["save", "save", "savefs", "savefs"], "vsbtload": ["save", "savefs"], "vlinear": ["savesig", "savesig"],
@@ -194,11 +194,13 @@ def gen_obj_case(rng, flavour):
 
     def new_view():
         nonlocal nv
-        kinds = ["vlinear", "vlinear", "vlazy", "vlazy", "vzip0", "vzip1", "vmulti", "vmulti", "vstandalone"]
+        kinds = ["vlinear", "vlinear", "vlazy", "vlazy", "vzip0", "vzip1", "vmulti", "vmulti", "vstandalone",
+                 "vzipg1", "vzipg1", "vzipg0"]
         if flavour == "inplace":
             kinds = ["vsbt", "vsbt", "vlca", "vlca", "vlinear", "vzip1"]
         if flavour == "disk":
-            kinds = ["vsbtload", "vsbtload", "vsbtload", "vsqlite", "vsqlite", "vlcaload0", "vlcaload1", "vlcaload1", "vsbt", "vlinear"]
+            kinds = ["vsbtload", "vsbtload", "vsbtload", "vsqlite", "vsqlite", "vlcaload0", "vlcaload1", "vlcaload1", "vsbt", "vlinear",
+                     "vzipg1", "vstandalone"]
         k = rng.choice(kinds)
         lin = [v for v, kk in views if kk == "vlinear"]
         if k in ("vlazy", "vmulti") and not lin:
@@ -211,6 +213,9 @@ def gen_obj_case(rng, flavour):
             return f"vmulti {nv - 1} " + " ".join(map(str, rng.sample(lin, rng.randint(1, min(2, len(lin))))))
         if k in ("vzip0", "vzip1"):
             return f"vzip {nv - 1} {k[-1]} {some_sigs(1, 4, distinct=True)}"
+        if k in ("vzipg0", "vzipg1"):
+            views[-1] = (nv - 1, "vzip" + k[-1])
+            return f"vzipg {nv - 1} {k[-1]} {rng.choice([2, 2, 3, 4])} {some_sigs(2, 5, distinct=True)}"
         if k == "vsbtload":
             return f"vsbtload {nv - 1} {rng.randint(0, 1)} {rng.choice([0, 1, 1, 2])} {some_sigs(1, 4, distinct=True)}"
         if k == "vsqlite":
@@ -237,17 +242,23 @@ def gen_obj_case(rng, flavour):
             return f"vsel {nv - 1} {v} {_kws(rng, scaled)}"
         if r < 0.5:
             if k in ("vsbtload", "vsqlite"):       # insertion into these is outside the modelled domain
-                return f"vro {rng.choice(VIEW_RO_Q)} {v} {S()}"
+                return f"vro {rng.choice(VIEW_RO_Q[:-1])} {v} {S()}"
             return f"vinsert {v} {S()}"
         if r < 0.62:
             cands = [x for x, kk in views if kk not in ("vsbt", "vlca", "vsbtload", "vlcaload0", "vlcaload1")]
             if not cands:
-                return f"vro {rng.choice(VIEW_RO_Q)} {v} {S()}"
+                return f"vro {rng.choice(VIEW_RO_Q[:-1])} {v} {S()}"
             ns += 1
             sigs.append(ns - 1)
             return f"vget {ns - 1} {rng.choice(cands)} {rng.choice([0, 0, 0, 0, 1, 1, 2])}"
         if r < 0.85:
             rr = rng.random()
+            mfv = [x for x, kk in views if kk in ("vzip1", "vmulti", "vstandalone", "vsqlite", "vlcaload1", "vsbtload")]
+            if mfv and rng.random() < 0.22:
+                # read-only calls on the manifests of two views (a + b aliases nothing, membership stays what it was ...)
+                a_, b_ = rng.choice(mfv), rng.choice(mfv)
+                return f"vmf {rng.choice(['add', 'add', 'add', 'eq', 'in', 'select', 'filter', 'misc'])} {a_} {b_}" + \
+                    (f" {S()} {S()}" if rng.random() < 0.5 else "")
             if rr < 0.04:
                 return f"sro insertinto {S()}" + (f" {S()}" if rng.random() < 0.5 else "")
             if rr < 0.3:
@@ -260,7 +271,11 @@ def gen_obj_case(rng, flavour):
                 return first
             if rr < 0.55:
                 return f"vro {rng.choice(VIEW_RO_0)} {v}"
-            return f"vro {rng.choice(VIEW_RO_Q)} {v} {S()}"
+            name = rng.choice(VIEW_RO_Q)
+            if name == "interleave" and k in ("vsqlite", "vlcaload1"):
+                # a half-consumed search on a SqliteIndex locks its connection (finding C15.4): that case lives in corpus/C15/
+                name = "prefetch"
+            return f"vro {name} {v} {S()}" + (f" {S()}" if name == "interleave" else "")
         return sig_op()
 
     n_ops = rng.randint(6, 28)
@@ -367,7 +382,7 @@ def gen_mh_case(rng, flavour):
 MH_RESULT = {"tomut", "tofrozen", "copy", "flat", "down", "sigmh", "plus", "inter", "new", "smh", "scg"}
 SIG_RESULT = {"snew", "stomut", "stofrozen", "scopy", "spickle", "supdflat", "supdname", "sgatherinit", "vget"}
 VIEW_RESULT = {"vlinear", "vlazy", "vzip", "vmulti", "vstandalone", "vsbt", "vlca", "vsel", "vselpick",
-               "vsbtload", "vsqlite", "vlcaload"}
+               "vsbtload", "vsqlite", "vlcaload", "vzipg"}
 MH_RECV = {"add", "addab", "addmany", "rm", "clear", "merge", "setab", "settrack", "intofrozen"}
 SIG_RECV = {"ssetmh", "sname", "sfile", "saddseq", "saddprot", "ssetstate", "sintofrozen"}
 SIG_FRESH = {"stomut", "spickle", "supdflat", "supdname", "sgatherinit"}
@@ -394,6 +409,30 @@ def parse(obs):
     return res.strip(), tab
 
 
+def _norm_view(text, sigs_here, sigs_there):
+    """a view item with its membership bits (`in=…`, one per signature handle of the world, ascending) restricted to the
+    signature handles that exist in both tables: a NEW signature adds a bit, it does not change the view"""
+    parts = text.split(";")
+    for k, p in enumerate(parts):
+        if p.startswith("in=") and p[3:] not in ("-", "."):
+            hs = sorted(sigs_here)
+            bits = p[3:]
+            if len(bits) == len(hs):
+                parts[k] = "in=" + "".join(b for h, b in zip(hs, bits) if h in sigs_there)
+        if p.startswith("f=") and _probe_key(sigs_here) != _probe_key(sigs_there):
+            parts[k] = "f=*"          # the probe query of the dump is another one: the search answers are not comparable
+    return ";".join(parts)
+
+
+def _probe_key(sigs):
+    """(threshold, hashes) of the dump's probe query: the lowest-handle signature that is flat and scaled"""
+    for h in sorted(sigs):
+        f = sigs[h][2].split(":")
+        if len(f) == 7 and f[3] == "0" and f[6] == "-":
+            return (f[4], f[5])
+    return None
+
+
 def oracle(case, impl):
     """C15 from the statement, on the implementation's own observations (no model involved):
     * a read-only call (`ro`, `sro`, `vro`) changes nothing and repeats (adapter: RepeatDiffers / InputModified);
@@ -415,10 +454,15 @@ def oracle(case, impl):
         o = w[0]
         if prev is None:
             prev = {"m": {}, "s": {}, "v": {}}
-        if o in ("ro", "sro", "vro"):
+        if o in ("ro", "sro", "vro", "vmf"):
             if res.startswith("err RepeatDiffers"):
                 bad.append((idx, f"C15:repeat-differs:{o}:" + w[1] if o != "ro" else "C15:repeat-differs:" + w[1],
                             f"`{op}`: repeating the same read-only call gave a different result"))
+            elif res.startswith("err InputModified") and w[1] == "interleave":
+                kind = prev["v"].get(int(w[2]), (None, "?", None))[1] if len(w) > 2 and w[2].isdigit() else "?"
+                bad.append((idx, f"C15:repeat-differs:interleaved-search:{kind}",
+                            f"`{op}`: while a prefetch() generator on the {kind} collection is only partly consumed, the same search "
+                            "on it (or on a view selected from it) fails or answers differently"))
             elif res.startswith("err InputModified"):
                 bad.append((idx, f"C15:input-modified:{o}:" + w[1] if o != "ro" else "C15:input-modified:" + w[1],
                             f"`{op}` modified a signature passed to it"))
@@ -494,7 +538,7 @@ def oracle(case, impl):
             if h not in prev["v"] or rebound == ("v", h):
                 continue
             pcls, pkind, ptext = prev["v"][h]
-            if text == ptext:
+            if _norm_view(text, tab["s"], prev["s"]) == _norm_view(ptext, prev["s"], tab["s"]):
                 continue
             is_recv = recv is not None and recv[0] == "v" and rcls == pcls
             wraps_recv = recv is not None and recv[0] == "v" and f";db=v{rcls};" in ";" + ptext
